@@ -120,7 +120,8 @@ func parseRange(h string) *parsed {
 		}
 		el = strings.TrimSpace(el)
 		if el == "" {
-			p.emptyElem, p.ambiguous = true, true
+			// a recipient MUST parse and ignore empty list elements (RFC 7230 §7)
+			p.emptyElem = true
 			continue
 		}
 		j := strings.IndexByte(el, '-')
@@ -237,6 +238,8 @@ func (p *parsed) syntaxShape() string {
 		return "other-unit"
 	case !p.ok:
 		return "malformed"
+	case p.emptyElem && !p.ambiguous:
+		return "empty-element"
 	case p.overflow:
 		return "number-beyond-int64"
 	case p.unitCase:
@@ -509,7 +512,11 @@ func judge(who string, content []byte, h string, o obs) kit.Verdict {
 	if h != "" && p.valid() {
 		sat, unsat = p.resolve(n)
 	}
-	accept416 := h != "" && (!p.valid() || p.ambiguous || unsat > 0)
+	// 416 is for a range SET that cannot be satisfied: no member selects
+	// anything (RFC 7233 §2.1, DESIGN's oracle). A set with at least one
+	// satisfiable member must be served (the other members are dropped).
+	accept416 := h != "" && (!p.valid() || p.ambiguous || p.reversed || len(sat) == 0)
+	partly := len(sat) > 0 && unsat > 0 && !p.ambiguous && !p.reversed
 
 	switch o.Status {
 	case http.StatusOK:
@@ -528,7 +535,11 @@ func judge(who string, content []byte, h string, o obs) kit.Verdict {
 			v.Addf(sig("full-content-length-mismatch"), "Range %q over %d bytes: 200 with the content but Content-Length %d", h, n, o.CL)
 		}
 	case http.StatusRequestedRangeNotSatisfiable:
-		if !accept416 {
+		switch {
+		case accept416:
+		case partly:
+			v.Addf("C20/"+who+"/partly-satisfiable-set/416-although-satisfiable", "Range %q over %d bytes: %d of the %d ranges can be satisfied (the set is satisfiable as soon as one member is), yet the answer is 416", h, n, len(sat), len(sat)+unsat)
+		default:
 			v.Addf(sig("416-although-satisfiable"), "Range %q over %d bytes is a valid bytes range set and every range is satisfiable, yet the answer is 416", h, n)
 		}
 		// the 416 itself must be a response that can be delivered: a readable
@@ -557,6 +568,10 @@ func judge(who string, content []byte, h string, o obs) kit.Verdict {
 			}
 			v = append(v, w...)
 		}
+	case http.StatusNotModified, http.StatusNoContent:
+		// a status under which no body travels: whatever was attached is cut off
+		// by every HTTP/1.x reader and writer, or poisons the connection
+		v.Addf(sig("content-under-bodyless-status"), "Range %q over %d bytes: status %d (kept from the replaced response) with Content-Length %d and %s: a %d message has no body, the content cannot be delivered", h, n, o.Status, o.CL, describeBody(o), o.Status)
 	default:
 		v.Addf(sig("status-unexpected"), "Range %q over %d bytes: status %d (error %v)", h, n, o.Status, o.Err)
 	}
